@@ -146,14 +146,23 @@ def run_benign(prop, verbose=False):
         if not f.endswith(".patch"):
             continue
         path = os.path.join(d, f)
-        if prop not in parse_header(path, "silent"):
+        only = {}
+        for item in parse_header(path, "only"):
+            # `# only: C11=C11.1` : check C11 may report keys of rule C11.1 only (a known finding that moved)
+            k, _, v = item.partition("=")
+            only[k.strip()] = v.strip()
+        if prop not in parse_header(path, "silent") and prop not in only:
             continue
         r = run_patch(prop, path, verbose, expect=["\0never"], label="benign/" + f)
         r["kind"] = "benign"
         if r["status"] == "MISSED":
             r["status"] = "silent"
         elif r["status"] in ("caught", "caught-by-other-rule"):
-            r["status"] = "FALSE-ALARM"
+            if prop in only and r.get("fired") and all(k.startswith(only[prop]) for k in r["fired"]):
+                r["status"] = "silent"
+                r["note"] = "reports only %s (a recorded finding that this edit moves to another function)" % only[prop]
+            else:
+                r["status"] = "FALSE-ALARM"
         out.append(r)
     return out
 
